@@ -365,7 +365,7 @@ class Gen:
                 self.add(d, 'F4b', 'accept', [tag, 'default' if dflt else 'no-default'])
         u = lambda n: {'k': 'u', 'n': n}
         F = self.field
-        for W in ([8, 24] if self.tier == 'quick' else [8, 12, 24, 32, 64, 100, 128]):
+        for W in ([8, 24, 64] if self.tier == 'quick' else [8, 12, 24, 32, 64, 100, 128]):
             h = W // 2
             two(W, [F('a', u(h), [('r', 0, h - 1)]), F('b', u(W - h), [('r', h, W - 1)])], 'complete')
             two(W, [F('a', u(h), [('r', 0, h - 1)]), F('b', u(W - h - 1), [('r', h, W - 2)])], 'top-bit-uncovered')
@@ -382,6 +382,12 @@ class Gen:
             two(W, [F('a', {'k': 'bool'}, [('s', 0)], count=h), F('b', u(W - h), [('r', h, W - 1)])], 'bool-array')
             two(W, [F('a', {'k': 'bool'}, [('s', 0)], count=h), F('b', u(W - h + 1), [('r', h - 1, W - 1)])], 'bool-array-overlaps-field')
             two(W, [F('a', u(h), [('r', 0, h - 1)]), F('b', u(W - h), [('r', h, W - 1)], acc='')], 'field-without-access')
+            if W >= 16:
+                two(W, [F('a', {'k': 'bool'}, [('s', 3)], count=3, stride=4), F('b', u(4), [('r', W - 4, W - 1)])], 'bool-array-stride-4')
+                two(W, [F('a', u(3), [('r', 0, 2)], count=3, stride=5), F('b', {'k': 'bool'}, [('s', W - 1)])], 'array-stride-gt-width')
+            if W >= 64:
+                two(W, [F('a', {'k': 'bool'}, [('s', 0)], count=40), F('b', u(W - 40), [('r', 40, W - 1)])], 'bool-array-40-elements')
+                two(W, [F('a', u(1), [('s', 0)], count=33), F('b', u(W - 33), [('r', 33, W - 1)])], 'u1-array-33-elements')
         # default values at the boundaries of the base type, every form and syntax (C06)
         k = 0
         for W in ([8, 64, 128, 7, 24, 65, 100] if self.tier == 'quick' else [8, 16, 32, 64, 128, 1, 7, 9, 24, 33, 63, 65, 100, 127]):
